@@ -186,8 +186,11 @@ def classify(out, res, p):
                 prim = sp
         if prim is None:
             continue
-        # choose a span inside a function body if the primary is in a contract line
-        line = prim['line_start']
+        # an error inside a macro expansion is attributed to the call site of the outermost expansion
+        site = prim
+        while site.get('expansion') and site['expansion'].get('span'):
+            site = site['expansion']['span']
+        line = site['line_start']
         fn = fn_at(line)
         msg = d.get('message', '')
         if fn is None:
@@ -198,6 +201,10 @@ def classify(out, res, p):
             twin_failed.add(fn['path'])
             continue
         spans = []
+        if site is not prim:
+            o, ln = origin_fn(res, site['line_start'])
+            spans.append({'unit_line': site['line_start'], 'origin': o, 'origin_line': ln, 'label': 'macro call site',
+                          'text': (site.get('text') or [{}])[0].get('text', '').strip()[:200]})
         for sp in d.get('spans', []):
             o, ln = origin_fn(res, sp['line_start'])
             spans.append({'unit_line': sp['line_start'], 'origin': o, 'origin_line': ln, 'label': sp.get('label'),
